@@ -1,3 +1,5 @@
+//go:build w_mapr
+
 package props
 
 import (
@@ -22,31 +24,6 @@ import (
 //
 // The "periodic partial-result transmission" is made deterministic by calling
 // the exported Aggregate.Serialize at chosen cut points.
-
-type pipeFile struct {
-	Lines []string `json:"lines"`
-	// Cuts: after how many fed lines of this file a serialization is forced
-	// (ascending positions).
-	Cuts []int `json:"cuts,omitempty"`
-}
-
-type pipeServer struct {
-	Host  string     `json:"host"`
-	Files []pipeFile `json:"files"`
-}
-
-type pipeCase struct {
-	Query   string       `json:"query"`   // query text, must contain an outfile clause pointing to Outfile
-	Outfile string       `json:"outfile"` // path of the CSV
-	Servers []pipeServer `json:"servers"`
-}
-
-type pipeResult struct {
-	CSV      string `json:"csv"`
-	Messages int    `json:"messages"` // serialized partial results transmitted
-	Err      string `json:"err,omitempty"`
-	ParseErr string `json:"parse_err,omitempty"`
-}
 
 var hostEnvMu sync.Mutex
 
